@@ -902,7 +902,7 @@ package leader
 //@   on load kvElection.token as l assert C01+C05+C07.revision_before_token: revLoaded
 //@   on load kvElection.token as l set lastTok = l.value
 //@   on call json.Marshal as m assert C05+C07+C02+C01+C10.heartbeat_payload: m.v.ID == e.cfg.InstanceID && m.v.Token == lastTok && m.v.Priority == e.cfg.Priority
-//@   on call time.After as a assert C03+C07.timeout_value: a.d > 0 && 2 * a.d >= e.cfg.HeartbeatInterval - 1
+//@   on call time.After as a assert C03+C07.timeout_value: a.d > 0 && 2 * a.d >= e.cfg.HeartbeatInterval - 1 && a.d <= max(e.cfg.HeartbeatInterval / 2, 1000000000)
 //@   on select as s assert C03+C07+C09+C18+C19.every_wait_of_the_refresh_loop_ends_with_the_term: s.blocking ==> s.hasDone && s.doneCtx == ctx
 //@   on call KeyValue.Update assert C03.attempt_time_boxed: inspawn()
 //@   on call KeyValue.Get assert C03.attempt_time_boxed: inspawn()
@@ -997,7 +997,7 @@ package leader
 //@   ghost hvfCalled Bool = false
 //@   on recv ticker set ran = false
 //@   on recv ticker set hvfCalled = false
-//@   on call validateToken as c assert C04.validation_time_boxed: origin(c.ctx, "ctx:derived") && CtxTimeout(c.ctx) > 0 && CtxParent(c.ctx) == ctx
+//@   on call validateToken as c assert C04.validation_time_boxed: origin(c.ctx, "ctx:derived") && CtxTimeout(c.ctx) > 0 && CtxTimeout(c.ctx) <= max(e.cfg.HeartbeatInterval / 2, 2000000000) && CtxParent(c.ctx) == ctx
 //@   on call validateToken as c assert C07.validation_outlasts_a_fault_free_read: 2 * CtxTimeout(c.ctx) >= e.cfg.HeartbeatInterval - 1
 //@   on ret validateToken as r set lastErr = r.result1
 //@   on ret validateToken as r set lastValid = r.result0
